@@ -106,7 +106,8 @@ def to_set_value(ev, state, v, node):
                      set_card(r) == dict_card(v), *wf(r))
         return r
     if k in ('list', 'arr'):
-        r = fresh(T.TSet(v.ty[1]), 'setof')
+        from .values import canon
+        r = canon(T.TSet(v.ty[1]), 'setof', v.term)     # set(xs) is a function of xs
         kk = z3.Const(fresh_name('k'), T.sort_of(v.ty[1]))
         i = z3.Int(fresh_name('i'))
         w = z3.Function(fresh_name('wit'), T.sort_of(v.ty[1]), z3.IntSort())
@@ -116,6 +117,11 @@ def to_set_value(ev, state, v, node):
             z3.ForAll([kk], z3.Implies(set_has(r)[kk],
                                        z3.And(0 <= w(kk), w(kk) < n, seq_at(v, w(kk)) == kk))),
             set_card(r) <= n, z3.Implies(n > 0, set_card(r) >= 1), *wf(r))
+        if v.ty[1] in (T.INT, T.NAME, T.BOOL, T.REAL):
+            # len(set(xs)) == len(xs) exactly when xs has no repeated element
+            i2 = z3.Int(fresh_name('i2'))
+            state.assume((set_card(r) == n) == z3.ForAll(
+                [i, i2], z3.Implies(z3.And(0 <= i, i < i2, i2 < n), seq_at(v, i) != seq_at(v, i2))))
         return r
     raise Unsupported(f"set() of {T.show(v.ty)}")
 
@@ -140,6 +146,8 @@ def _comp_source(ev, state, g):
         if len(args) == 1:
             lo, hi = z3.IntVal(0), to_int(args[0])
         elif len(args) == 2:
+            lo, hi = to_int(args[0]), to_int(args[1])
+        elif len(args) == 3 and args[2].meta == ('const', 1):
             lo, hi = to_int(args[0]), to_int(args[1])
         else:
             raise Unsupported("range step in comprehension")
@@ -196,6 +204,63 @@ def _eval_with(ev, state, bindings, expr):
         state.ghost = saved
 
 
+def _fresh_decls(exprs, mark):
+    """uninterpreted symbols named 'hint!N' with N > mark occurring in exprs (created after mark)"""
+    seen, out, todo = set(), {}, list(exprs)
+    while todo:
+        e = todo.pop()
+        if e.get_id() in seen:
+            continue
+        seen.add(e.get_id())
+        if z3.is_quantifier(e):
+            todo.append(e.body())
+        elif z3.is_app(e):
+            d = e.decl()
+            if d.kind() == z3.Z3_OP_UNINTERPRETED:
+                nm = d.name()
+                k = nm.rfind('!')
+                if k >= 0 and not nm.startswith('lit!') and nm[k + 1:].isdigit() and int(nm[k + 1:]) > mark:
+                    out[nm] = d
+            todo.extend(e.children())
+    return list(out.values())
+
+
+def _eval_elems(ev, state, i, n, bind, exprs):
+    """evaluate the element expression(s) of a comprehension under the quantified index i.
+
+    Values created while evaluating the element (results of primitives: fresh constants /
+    functions together with their defining facts) depend on the index.  They are lifted to
+    functions of i and their defining facts are quantified over the index range (skolemisation;
+    the facts hold for every index value).  Without this one constant would stand for the
+    values of all elements, and its defining fact would speak about a free index."""
+    mark = int(fresh_name('mark').rsplit('!', 1)[1])
+    pc0 = len(state.pc)
+    vals = [_eval_with(ev, state, bind(i), e) for e in exprs]
+    new = list(state.pc[pc0:])
+    decls = _fresh_decls(new + [v.term for v in vals], mark)
+    if not new and not decls:
+        return vals
+    del state.pc[pc0:]
+    subs_c, subs_f = [], []
+    for d in decls:
+        dom = [d.domain(k) for k in range(d.arity())]
+        nd = z3.Function(d.name() + '@', z3.IntSort(), *(dom + [d.range()]))
+        if d.arity() == 0:
+            subs_c.append((d(), nd(i)))
+        else:
+            subs_f.append((d, nd(i, *[z3.Var(k, dom[k]) for k in range(d.arity())])))
+
+    def lift(t):
+        if subs_f:
+            t = z3.substitute_funs(t, *subs_f)
+        if subs_c:
+            t = z3.substitute(t, *subs_c)
+        return t
+    if new:
+        state.assume(z3.ForAll([i], z3.Implies(z3.And(0 <= i, i < n), z3.And(*[lift(f) for f in new]))))
+    return [SymVal(v.ty, lift(v.term)) for v in vals]
+
+
 def _check_elements(ev, state, n, bind, exprs, conds):
     """safety obligations of the element expression for a symbolic representative index"""
     if ev.ctx.spec_mode:
@@ -223,7 +288,7 @@ def list_comp(ev, state, node):
     n, bind = _comp_source(ev, state, g)
     _check_elements(ev, state, n, bind, [node.elt], g.ifs)
     i = z3.Int(fresh_name('lc'))
-    elt = _eval_with(ev, state, bind(i), node.elt)
+    elt, *cvals = _eval_elems(ev, state, i, n, bind, [node.elt] + list(g.ifs))
     if not g.ifs:
         r = fresh(T.TList(elt.ty), 'lcomp')
         state.assume(seq_len(r) == n,
@@ -231,7 +296,7 @@ def list_comp(ev, state, node):
                      *wf(r))
         return r
     # filter form: strictly increasing source positions src(j), complete
-    cond = z3.And(*[truth(_eval_with(ev, state, bind(i), c)) for c in g.ifs])
+    cond = z3.And(*[truth(c) for c in cvals])
     r = fresh(T.TList(elt.ty), 'lfilt')
     src = z3.Function(fresh_name('src'), z3.IntSort(), z3.IntSort())
     dst = z3.Function(fresh_name('dst'), z3.IntSort(), z3.IntSort())
@@ -258,8 +323,7 @@ def dict_comp(ev, state, node):
     n, bind = _comp_source(ev, state, g)
     _check_elements(ev, state, n, bind, [node.key, node.value], [])
     i = z3.Int(fresh_name('dc'))
-    kv = _eval_with(ev, state, bind(i), node.key)
-    vv = _eval_with(ev, state, bind(i), node.value)
+    kv, vv = _eval_elems(ev, state, i, n, bind, [node.key, node.value])
     r = fresh(T.TDict(kv.ty, vv.ty), 'dcomp')
     last = z3.Function(fresh_name('last'), T.sort_of(kv.ty), z3.IntSort())
     k = z3.Const(fresh_name('dk'), T.sort_of(kv.ty))
@@ -286,7 +350,7 @@ def set_comp(ev, state, node):
     n, bind = _comp_source(ev, state, g)
     _check_elements(ev, state, n, bind, [node.elt], [])
     i = z3.Int(fresh_name('sc'))
-    e = _eval_with(ev, state, bind(i), node.elt)
+    e, = _eval_elems(ev, state, i, n, bind, [node.elt])
     r = fresh(T.TSet(e.ty), 'scomp')
     w = z3.Function(fresh_name('wit'), T.sort_of(e.ty), z3.IntSort())
     k = z3.Const(fresh_name('sk'), T.sort_of(e.ty))
@@ -437,6 +501,12 @@ def call_contract(ev, state, node, c, name, receiver=None):
             raise Unsupported(f"default argument for {p} of {name} without value")
         v = ev.eval(state, arg)
         if pty is not None:
+            if v.ty[0] == 'opt' and pty[0] not in ('opt', 'opaque'):
+                # an optional passed where the callee's contract wants a value: not-None is an
+                # obligation at the call site (path conditions such as `x is not None` discharge it)
+                ctx.oblige(state, z3.Not(T.opt_is_none(v.ty, v.term)), 'TypeError', node,
+                           f"argument {p} of {name} is not None")
+                v = select(v, ('some',))
             v = coerce(v, pty)
         pre_vals[p] = v
         refs[p] = ev.eval_ref(state, arg)
@@ -571,6 +641,12 @@ def b_len(ev, state, node):
     if k == 'rec' and '__rest__' in T.RECORDS[v.ty[1]]:
         rest = select(v, ('fld', '__rest__'))
         return SymVal(T.INT, dict_card(rest) + len(T.RECORDS[v.ty[1]]) - 1)
+    if k == 'name':
+        # len of a string: uninterpreted, exact for literals, additive over `+` (values.strlen)
+        from .values import strlen
+        if v.meta and v.meta[0] == 'const' and isinstance(v.meta[1], str):
+            return const_int(len(v.meta[1]))
+        return SymVal(T.INT, strlen(v.term))
     raise Unsupported(f"len of {T.show(v.ty)}")
 
 
